@@ -72,9 +72,13 @@ let blkrb toks =
       Buffer.add_string buf (Printf.sprintf "%d:%s%s%s%s " n (b c) (b x) (b u) (show_ranges !r)))
     toks;
   Buffer.add_string buf "A=";
-  for t = 0 to !mx + 3 do
+  for t = 0 to min (!mx + 3) 40 do
     Buffer.add_string buf (if blk_check_all_in !r (z_of_int t) then "1" else "0")
   done;
+  if !mx + 3 > 40 then
+    for t = !mx - 1 to !mx + 3 do
+      Buffer.add_string buf (if blk_check_all_in !r (z_of_int t) then "1" else "0")
+    done;
   Buffer.contents buf
 
 let () =
